@@ -197,6 +197,36 @@ fn c15_aa_step() {
     core::mem::forget(aa);
 }
 
+// H1c: "The budget arithmetic never underflows into an effectively unlimited allowance": for ANY
+// amount fed back (the callers in burst.rs can overdraw: Initial padding, several segments per burst,
+// forward headers — see the open known findings), the credit after on_sent is the saturated
+// difference, never a wrapped-around huge value. On the pinned tree this failed (fetch_sub wrapped:
+// on_rcvd(1); on_sent(4) left credit = 2^64 - 1); repaired in /repo by
+// "fix: saturate the anti-amplification credit in on_sent".
+#[kani::proof]
+#[kani::unwind(2)]
+fn c15_on_sent_never_wraps() {
+    let (aa, _g) = any_pre();
+    let st = state_of(&aa);
+    let credit = credit_of(&aa);
+    let a: usize = kani::any();
+    aa.on_sent(a);
+    let after = credit_of(&aa);
+    assert!(state_of(&aa) == st);
+    if st == NORMAL {
+        assert!(after <= credit, "on_sent never increases the credit (no wrap-around into an unlimited allowance)");
+        assert!(after == if a >= credit { 0 } else { credit - a }, "credit after on_sent == saturating difference");
+        if a >= credit {
+            assert!(aa.balance() == Err(Signals::CREDIT), "an overdrawn budget blocks further sending");
+        }
+    } else {
+        assert!(after == credit);
+    }
+    kani::cover!(st == NORMAL && a > credit, "overdraft fed back");
+    kani::cover!(st == NORMAL && a > 0 && a < credit, "ordinary consumption");
+    core::mem::forget(aa);
+}
+
 // H1b: a sender blocked on CREDIT is woken by on_rcvd / grant / abort (the wake-up half of
 // "sending resumes as soon as more is received or the address is validated").
 #[kani::proof]
